@@ -1,6 +1,7 @@
 import ChiaModel.Drv.Util
 import ChiaModel.Drv.C07
 import ChiaModel.Drv.C08
+import ChiaModel.Model.WithConds
 namespace ChiaModel.Drv.C09
 open ChiaModel ChiaModel.Drv ChiaModel.Cond ChiaModel.Gn
 
@@ -81,7 +82,16 @@ def handle : List String → String
             named && (match native p g2 genRun2 puzRev 1000000000000000 with
               | .ok b2 => b2.spends.map C01.spendS == (b.spends.map C01.spendS).reverse
               | .error _ => false)
-        s!"rem=[{rems}] add=[{adds}] || rebuild=same lookup=found withconds=same || vrem=[{rems}] vadd=[{adds}] || scanner={if scanOk && lookupOk && coinspendsOk then "agrees" else "differs"}"
+        -- the model of `get_coinspends_with_conditions_for_trusted_block` (Props/C09 `withconds_of_accept`,
+        -- `listing_spec`): its listings, as text (or as the SHA-256 of the text when long)
+        let wcl := match getCoinspendsWithConds fits2MB p g genRun puzF with
+          | none => "ERR"
+          | some l =>
+            let entryS : Nat × List Bytes → String := fun e => s!"{e.1}:" ++ String.join (e.2.map (fun a => "x" ++ toHex a))
+            let spendS : CoinSpendM × CondListing → String := fun q => ",".intercalate (q.2.map entryS)
+            let txt := "|".intercalate (l.map spendS)
+            if txt.length ≤ 2000 then txt else s!"sha:{toHex (sha256 (txt.toUTF8.toList.map UInt8.toNat))}"
+        s!"rem=[{rems}] add=[{adds}] || rebuild=same lookup=found withconds=same || vrem=[{rems}] vadd=[{adds}] || scanner={if scanOk && lookupOk && coinspendsOk then "agrees" else "differs"} || wcl={wcl}"
   | _ => "bad-op"
 
 end ChiaModel.Drv.C09
